@@ -138,13 +138,13 @@ def data_fine_stream(props, name="data-fine-grained-exploration"):
     def stream(tier):
         R0 = C.rng("conc-data-fine")
         res = Result(name)
-        n = {"quick": 150, "search": 1200, "thorough": 6000}[tier]
+        n = {"quick": 300, "search": 1500, "thorough": 8000}[tier]
         for i in range(n):
             seed = R0.getrandbits(48)
             R = random.Random(seed)
             scn = CD.gen_scenario(R, "small")
             scn["fine_seed"] = seed ^ 0xF1E2D3
-            scn["fine_p"] = R.choice([0.05, 0.15, 0.3])
+            scn["fine_p"] = R.choice([0.15, 0.35, 0.6])
             SR = random.Random(seed ^ 0x5DEECE66D)
             choices = []
 
@@ -188,7 +188,7 @@ def meta_fine_stream(props, name="meta-fine-grained-exploration"):
             R = random.Random(seed)
             scn = CM.gen_scenario(R)
             scn["fine_seed"] = seed ^ 0xA5A5A5
-            scn["fine_p"] = R.choice([0.05, 0.15, 0.3])
+            scn["fine_p"] = R.choice([0.2, 0.6, 1.0])
             SR = random.Random(seed ^ 0x9E3779B97F4A)
             choices = []
 
